@@ -50,7 +50,7 @@ def strategies(profile, max_ops=40):
     small = st.integers(0, 5)
     ref = st.integers(-4, 4)
     job = st.fixed_dictionaries({'g': st.integers(-3, 3), 'parents': st.lists(ref, max_size=3), 'cpu': st.integers(0, 5)},
-                                optional={'ar': st.booleans(), 'pool': st.sampled_from([0, 0, 1, 2, 2])})
+                                optional={'ar': st.booleans(), 'pool': st.sampled_from([0, 0, 1, 2, 2]), 'legacy': st.booleans()})
     jobs = st.lists(job, min_size=1, max_size=6)
     groups = st.lists(st.integers(-3, 3), max_size=3)
     res = st.one_of(st.none(), st.lists(st.tuples(st.integers(0, 40), st.integers(0, 4)).map(list), min_size=1, max_size=3))
@@ -151,6 +151,9 @@ def strategies(profile, max_ops=40):
         else:
             steps += [['schedule', -1, 0]]
         steps += [['started', -1, 0, None], ['complete', -1, cst, 0, 5, None, True, 1]]
+        if under is not None and not mid_cancel and under[0] % 2 == 0:
+            # once the job is done: an update that only adds job groups (no jobs) is opened, sent and committed
+            steps += [['update', 0, [under[1]], []], ['groups', -1, None, False], ['commit', -1]]
         if mid_cancel:
             at = mid_cancel % len(steps) + 1
             extra = [['cancel', 0, cg if nest else 0]]
